@@ -68,6 +68,8 @@ func main() {
 		set, in = streams.Adm("c12", *seed, *n, "pf12", []string{"namespace"})
 	case "c18adm":
 		set, in = streams.Adm("c18adm", *seed, *n, "pf18", []string{"pod", "controller", "namespace"})
+	case "c20":
+		set, in = streams.C20(*seed, *n)
 	case "admall":
 		set, in = streams.Adm("admall", *seed, *n, "pf_all", []string{"pod", "controller", "namespace"})
 	case "podstext":
